@@ -452,6 +452,7 @@ type c18Scenario struct {
 	dupDrops uint64
 	sendFail uint64
 	finalSel [2]bool
+	altered  []string // delivered messages that no longer say what they said in the handler
 	off      time.Duration // c18Send.Call/Ret + off = the same instant on the history's clock (Ev.T)
 }
 
@@ -686,6 +687,7 @@ func c18Run(env *fw.Env, p *c18Plan) *c18Scenario {
 	smu.Lock()
 	for role := 0; role < 2; role++ {
 		sc.got[role] = ends[role].Deliveries(0)
+		sc.altered = append(sc.altered, ends[role].AlteredLater()...)
 		m := ends[role].Conn.BlockMetrics()
 		sc.metrics[role] = s1MetricsLine(m)
 		sc.dupDrops += m.BlockDupDropCount()
@@ -898,6 +900,13 @@ func c18Judge(env *fw.Env, p *c18Plan, sc *c18Scenario, final bool) {
 						filepath.Join(env.OutDir, fmt.Sprintf("c18-noreestab-%d-%s.txt", p.Idx, roleName(role)))))
 				}
 			}
+		}
+	}
+
+	// "no message is ever ... altered": a delivered message that the application retained still says what it said
+	for k, a := range sc.altered {
+		if k == 0 {
+			viol("delivered-message-altered-later", fmt.Sprintf("%d delivered message(s) changed after delivery (the receiver re-used memory that a delivered message still refers to); first: %s", len(sc.altered), a))
 		}
 	}
 
